@@ -109,6 +109,18 @@ impl Ctx<'_> {
     /// Report a failed oracle.  If its signature is a listed known finding it is
     /// recorded and `Ok(())` is returned so the caller carries on.
     pub fn fail(&mut self, key: &str, msg: impl FnOnce() -> String) -> R {
+        // One known engine panic can surface through any check that commits tokens or asks for forced bytes on a
+        // grammar with a lazy / suffix= / stop= lexeme: `assert!(!state.has_lowest_match())` in Lexer::next_byte.
+        // It gets its own signature, whatever oracle noticed it (see known_findings.json).
+        let msg_text = msg();
+        let rekeyed;
+        let key = if msg_text.contains("assertion failed: !state.has_lowest_match()") && (msg_text.contains("suffix=") || msg_text.contains("[lazy") || msg_text.contains("stop=")) {
+            rekeyed = format!("{}/lazy-lexeme-lowest-match-state-panics", key.split('/').next().unwrap_or(key));
+            rekeyed.as_str()
+        } else {
+            key
+        };
+        let msg = move || msg_text;
         // survey mode (development aid): log every failure and carry on
         if let Ok(p) = std::env::var("VERIF_SURVEY") {
             use std::io::Write;
